@@ -140,13 +140,20 @@ class Runner(object):
                  p.dimse_gen is not None, len(self.sock.inbox) if self.sock else 0, len(p.tlog))
         return bool(inds) or before != after
 
-    def settle(self, limit=200000):
-        """step until a pass changes nothing"""
+    max_settle = 0
+
+    def settle(self, limit=20000):
+        """step until a pass changes nothing (the longest legitimate run of the corpus is some 500 passes; a loop still busy
+        after `limit` passes without new input is reported as blocked)"""
         n = 0
         while n < limit and not self.tr.crash and not self.tr.blocked:
             n += 1
             if not self.step():
                 break
+        if n > Runner.max_settle:
+            Runner.max_settle = n
+        if n >= limit and not self.tr.crash and not self.tr.blocked:
+            self.tr.blocked = 'the loop was still busy after %d passes without any new input' % n
         return n
 
     def feed(self, seg):
